@@ -195,6 +195,9 @@ func garbage(r *kit.Rng, donors []string) (string, string) {
 		case 1:
 			return "APPLICATION a(); WORKSPACE W ( TABLE T INHERITS sys.CDoc (a int32 CHECK (" + strings.Repeat("(", k) + "a" + strings.Repeat(")", k) + " > 0)); );", "nested-expression"
 		case 2:
+			if k%2 == 0 { // with a ';' before every level (a depth counter must not start over at a ';')
+				return "APPLICATION a(); " + strings.Repeat("WORKSPACE W (; ", k), "nested-workspaces-semicolons"
+			}
 			return "APPLICATION a(); " + strings.Repeat("WORKSPACE W (", k), "nested-workspaces"
 		default:
 			return "APPLICATION a(); WORKSPACE W ( TABLE T INHERITS sys.CDoc (" + strings.Repeat("x TABLE N (", k%300) + strings.Repeat(")", k%300) + "); );", "nested-tables"
